@@ -7,6 +7,8 @@ import (
 	"encoding/binary"
 	"encoding/json"
 	"fmt"
+	"io"
+	"os"
 	"strings"
 	"testing"
 
@@ -40,6 +42,16 @@ func roundTrip(rec *hx.Recorder, fs *gen.FileSpec, labels map[string]int) (strin
 	}
 	if eerr != nil {
 		return fmt.Sprintf("Encode failed on an in-domain File: %v", eerr), false
+	}
+	// the bytes do not depend on what kind of writer receives them
+	if msg := gen.CheckWriterKind(os.Getenv("VERIF_BUILD"), buf.Len()+len(fs.Slots), buf.Bytes(), func(w io.Writer) error {
+		again, err := gen.BuildFile(fs)
+		if err != nil {
+			return err
+		}
+		return fit.Encode(w, again, order(fs.BigEndian))
+	}); msg != "" {
+		return "Encode: " + msg, false
 	}
 	var out *fit.File
 	var derr error
